@@ -526,3 +526,8 @@ for _c in js_read:
     _c.callees = {}
     _c.lib = {"read_then_built_from_the_table": _r_ok, "os.path.splitext": lambda ex, path, args, kwargs, node, fn: PyList(["lib", ".hdf5"], None, True)}
 CONTRACTS += js_read
+
+
+def EXTRA():
+    from . import chain as _CHX
+    return _CHX.frame_effects(PROPERTY)
